@@ -12,7 +12,7 @@ LEVEL = "model_checking"
 FAMILY = "blacklist"
 
 BASE = dict(MaxQ=1, CanExpire=True, Churn=True, RecheckAtPublish=True, CheckFwd=True, CheckAuthor=True, CheckNewStream=True,
-            CheckPending=True, ApiCloses=True, ApiClears=True, ApiNotifies=True, GraftNeedsStream=True)
+            CheckPending=True, ApiCloses=True, ApiClears=True, ApiNotifies=True, GraftNeedsStream=True, ApiSkipsIfPresent=False)
 INVS = ["TypeOK", "P_C16_NoInject", "P_C16_Refuse", "P_C16_Api", "P_C16_ApiQueue"]
 # one mechanism removed -> the predicate that must fail (non-vacuity)
 MUST_FAIL = [("asfound-D13", {"RecheckAtPublish": False}, "P_C16_NoInject"),
@@ -23,6 +23,7 @@ MUST_FAIL = [("asfound-D13", {"RecheckAtPublish": False}, "P_C16_NoInject"),
              ("api-no-close", {"ApiCloses": False}, "P_C16_Api"),
              ("api-no-clear", {"ApiClears": False}, "P_C16_Api"),
              ("api-no-notify", {"ApiNotifies": False}, "P_C16_Api"),
+             ("api-skips-if-present", {"ApiSkipsIfPresent": True}, "P_C16_Api"),
              ("asfound-D6", {"GraftNeedsStream": False}, "P_C16_Api")]
 
 
@@ -86,15 +87,15 @@ def plan_scenarios(ctx, sits):
             dropped[k] = dropped.get(k, 0) + 1
             continue
         impls = ["map", "timed"]
-        if not ctx.thorough:
+        if not ctx.thorough and s["how"] != "both":     # Add's return value differs per implementation: always run both
             impls = [rng.choice(impls)]
         for impl in impls:
             paths = ["queue"]
-            if s["stage"] in ("none", "arrived"):
+            if s["stage"] in ("none", "arrived") and s["how"] != "both":
                 paths.append("direct")
             for path in paths:
                 sc = dict(s)
-                sc.update(impl=impl, path=path, expire=(impl == "timed" and s["stage"] == "none" and path == "queue"))
+                sc.update(impl=impl, path=path, expire=(impl == "timed" and s["stage"] == "none" and path == "queue" and s["how"] != "both"))
                 out.append(sc)
                 if ctx.thorough and s["stage"] == "sendQ" and s["how"] == "api":
                     out += [dict(sc), dict(sc)]        # the select order is random: more attempts
@@ -160,6 +161,16 @@ def coverage(scns_lines):
         inc("impl:" + impl)
         inc("how:" + how)
         before = sc[bl_line - 1]
+        if how == "both":
+            # direct Add first, BlacklistPeer second: the api clean-up must happen whatever Add returned
+            api_line = next((k for k, ln in enumerate(sc) if k > 0 and any(x["how"] == "api" for x in ln["c16"]["bl"])), None)
+            if api_line is not None and api_line > bl_line:
+                e2 = next(x for x in sc[api_line]["c16"]["bl"] if x["how"] == "api")
+                if "p1" in sc[api_line - 1]["st"]["peers"] and sc[api_line - 1]["c16"]["blc"]["p1"]:
+                    inc("both:%s:add-returned-%s" % (impl, str(e2["ok"]).lower()))
+                    if pos in ("mesh", "fanout", "conn"):
+                        inc("both:%s:%s" % (impl, pos))
+            how = "api"
         if pos == "mesh" and "p1" in before["st"]["mesh"].get("T1", []):
             inc("pos:mesh")
         if pos == "fanout" and "p1" in before["st"]["fanout"].get("T2", []):
@@ -230,7 +241,9 @@ NEED = ["impl:map", "impl:timed", "how:api", "how:direct", "pos:never", "pos:pen
         "inflight-by:origin", "inflight-by:author", "inflight-how:api", "inflight-how:direct",
         "reject:peer", "reject:peer-foreign-author", "reject:source", "reject:peer-directpath", "reject:source-directpath",
         "reconnect:first", "reconnect:again", "reconnect:skipped", "refuse:newstream", "refuse:respawn",
-        "gated:queued-rpcs-dropped", "api:queue-closed", "expired"]
+        "gated:queued-rpcs-dropped", "api:queue-closed", "expired",
+        "both:timed:add-returned-false", "both:map:add-returned-true", "both:timed:mesh", "both:timed:fanout", "both:timed:conn",
+        "both:map:mesh", "both:map:fanout", "both:map:conn"]
 
 
 def run(ctx):
